@@ -19,7 +19,7 @@ def run(ctx):
     F = ctx.F['cli']
     ctx.rule('C13.R1', 'hub_sync: whole local map; per file skip (listed == local) or Put', floor=2)
     ctx.rule('C13.R2', 'Put arguments all from the same loop entry; put() sends metadata len then streams the same file', floor=3)
-    ctx.rule('C13.R3', 'lost CAS -> non-zero exit; I/O errors propagate', floor=3)
+    ctx.rule('C13.R3', 'lost CAS -> non-zero exit, and the push continues with the remaining files; I/O errors propagate', floor=4)
     ctx.rule('C13.R4', 'client never deletes / writes; List hides only .copia', floor=2)
     ctx.rule('C13.R5', 'target dispatch and handshake order', floor=4)
     b = F.body('hub::hub_sync')
@@ -122,44 +122,22 @@ def run(ctx):
     # ---- R3
     oc = fl.outcomes(pb)
     ok_e = oc.get('Ok', set())
-    conflicts_ok = False
-    final_ok = False
-    cnt_local = None
-    for bi in cfg.reachable():
-        for st in b.blocks[bi]['stmts']:
-            rv = st['rv']
-            if rv['k'] == 'bin' and rv['op'] == 'Eq':
-                oa, ob = fl.origins(rv['ops'][0]), fl.origins(rv['ops'][1])
-                z = lambda os_: bool(os_) and all(o.kind == 'const' and o.key == 0 for o in os_)
-                cnt = lambda os_: any(o.kind == 'op' and 'Add' in o.key for o in os_)
-                if (z(ob) and cnt(oa)) or (z(oa) and cnt(ob)):
-                    o2 = fl.outcomes(None, st['dst']['l'])
-                    oks = ok_assign_blocks(b, 'Ok')
-                    if oks and o2.get('true') and all(cfg.edges_guard(o2['true'], ob_) for ob_ in oks):
-                        final_ok = True
-                        cnt_local = rv['ops'][0] if cnt(oa) else rv['ops'][1]
-    if cnt_local is not None:
-        # the counter is incremented on the false edge of `committed`
-        l = cnt_local['p']['l']
-        root = l
-        for (dbb, idx, kind, data, dproj) in fl.defs.get(l, []):
-            if kind == 'assign' and data['k'] == 'use' and data['ops'][0]['k'] != 'const':
-                root = data['ops'][0]['p']['l']
-        committed = fl.outcomes(pb)
-        f_e = committed.get('false', set())
-        for (dbb, idx, kind, data, dproj) in fl.defs.get(root, []):
-            if kind == 'assign' and data['k'] == 'use' and data['ops'][0]['k'] != 'const':
-                # `conflicts = move _x.0` after AddWithOverflow
-                if f_e and cfg.edges_guard(f_e, dbb):
-                    # and the false edge cannot skip the increment
-                    unavoid = True
-                    for (s, t, lab) in f_e:
-                        r = cfg.reach(t, cut_blocks=[dbb])
-                        if r & (set(heads) | set(cfg.exits())):
-                            unavoid = False
-                    conflicts_ok = unavoid
-    ctx.check(conflicts_ok and final_ok, 'C13.R3', 'hub_sync:conflicts->Err', 'committed == false increments conflicts; Ok only if conflicts == 0',
-              'a lost CAS does not make hub_sync fail (increment on the not-committed edge: %s; Ok guarded by conflicts == 0: %s)' % (conflicts_ok, final_ok), term_loc(b, pb))
+    committed = fl.outcomes(pb)
+    f_e = committed.get('false', set())
+    t_e = committed.get('true', set())
+    oks = ok_assign_blocks(b, 'Ok')
+    latch, lwhy = sticky_flag(fl, f_e, oks) if f_e and oks else (None, 'no not-committed edge / Ok return found')
+    ctx.check(latch is not None, 'C13.R3', 'hub_sync:conflicts->Err', 'the not-committed edge latches a variable; Ok is returned only while it is untouched',
+              'a lost CAS does not make hub_sync fail (%s)' % lwhy, term_loc(b, pb))
+    # a lost (or won) CAS does not end the push: the loop goes on to the next local file
+    stops = None
+    for (s_, t_, lab) in (f_e | t_e):
+        r = cfg.reach(t_, cut_blocks=[nb] if nb is not None else [])
+        if r & set(cfg.exits()):
+            stops = t_
+    ctx.check(nb is not None and bool(f_e) and stops is None, 'C13.R3', 'hub_sync:conflict-does-not-stop-the-push', 'after a Put reply the loop always returns to the next local entry',
+              'hub_sync can leave the loop after a Put reply (e.g. on a lost CAS): the local files that sort after it are never sent, so they are not retrievable from the hub',
+              term_loc(b, stops) if stops is not None else term_loc(b, pb))
     ctx.check(bool(ok_e), 'C13.R3', 'hub_sync:put-error-propagates', 'client.put(..)? propagates errors', 'the result of client.put is not propagated', term_loc(b, pb))
     lb = lists[0][0]
     ctx.check(bool(fl.outcomes(lb).get('Ok')) and cfg.dominates(lb, pb), 'C13.R3', 'hub_sync:list-error-propagates', 'client.list()? before the loop',
